@@ -745,6 +745,12 @@ func (fr *Frame) exec(in ssa.Instruction) {
 		if fr.wantSafety("nil") {
 			fr.oblige("safety-nil", fmt.Sprintf("L%d", fr.pos(x.Pos()).Line), not(eq(p.L[0], "0")), nil, x.Pos(), x.String())
 		}
+		// taking the address of a field of a nil struct pointer panics when it is used: execution
+		// continues only with a non-nil pointer (&p.f with p == nil is legal Go only if never dereferenced;
+		// go/ssa emits FieldAddr immediately before the access)
+		if fieldAddrIsAccessed(x) {
+			vc.assume(fr.curR, not(eq(p.L[0], "0")))
+		}
 		if !vc.flatStruct(S) {
 			// field of opaque struct through pointer
 			fam := "H_" + vc.typeName(S) + "." + fieldName(S, x.Field)
@@ -848,4 +854,28 @@ func (fr *Frame) exec(in ssa.Instruction) {
 
 func fieldName(S types.Type, i int) string {
 	return S.Underlying().(*types.Struct).Field(i).Name()
+}
+
+// fieldAddrIsAccessed: every use of the address is a load or a store in the same block.
+func fieldAddrIsAccessed(x *ssa.FieldAddr) bool {
+	refs := x.Referrers()
+	if refs == nil || len(*refs) == 0 {
+		return false
+	}
+	for _, r := range *refs {
+		switch u := r.(type) {
+		case *ssa.UnOp:
+			if u.Block() != x.Block() {
+				return false
+			}
+		case *ssa.Store:
+			if u.Addr != ssa.Value(x) || u.Block() != x.Block() {
+				return false
+			}
+		case *ssa.DebugRef:
+		default:
+			return false
+		}
+	}
+	return true
 }
